@@ -249,7 +249,11 @@ def vertical_shift_impl(
 
     shifts = calc_vertical_shifts(offset)
 
-    move_by_shift(start_pos, shifts, all_cols, src_rows)
+    def block_row(row: int):
+        # `start_pos` begins at logical row `row_start`
+        return row - row_start
+
+    move_by_shift(start_pos, shifts, all_cols, ilist.map(block_row, src_rows))
 
 
 @move
